@@ -17,7 +17,7 @@ from typing import Any
 
 from . import core
 
-MODULES = ["ESV.Props.DecompFuel", "ESV.Props.DecompFront", "ESV.Props.DecompOpt", "ESV.Props.DecompBranches"]
+MODULES = ["ESV.Props.DecompFuel", "ESV.Props.DecompFront", "ESV.Props.DecompOpt", "ESV.Props.DecompBranches", "ESV.Props.DecompGroup"]
 THEOREMS = ["ESV.DecompFront.resolve_total", "ESV.DecompFront.resolve_preserves", "ESV.DecompFront.baseGraph_preserves",
             "ESV.DecompFront.resolve_names", "ESV.DecompFront.baseGraph_ok", "ESV.DecompFront.edge_reading_agrees",
             "ESV.DecompFront.optimizePaths_preserves", "ESV.DecompFront.front_phases_preserve",
@@ -27,6 +27,15 @@ THEOREMS = ["ESV.DecompFront.resolve_total", "ESV.DecompFront.resolve_preserves"
             "ESV.Decomp.buildBranches_levels_counterexample", "ESV.Decomp.buildBranches_other_target_counterexample",
             "ESV.DecompFront.baseGraph_never_fuel", "ESV.DecompFront.hasPath_fuel_irrelevant", "ESV.DecompFront.processOp_fuel_irrelevant"]
 THEOREMS += ["ESV.DecompFront.baseGraph_never_fuel", "ESV.DecompFront.hasPath_fuel_irrelevant", "ESV.DecompFront.processOp_fuel_irrelevant"]
+
+
+THEOREMS += ["ESV.DecompFront.stepB_agrees", "ESV.DecompFront.stepB_agrees_after_buildBranches", "ESV.DecompFront.groupBranches_preserves",
+             "ESV.DecompFront.invertBranches_stepB", "ESV.DecompFront.invertBranches_preserves", "ESV.DecompFront.front_through_invert_preserve",
+             "ESV.DecompFront.groupBranches_invertStructOk", "ESV.DecompFront.bridgeOk_groupStructOk",
+             "ESV.Decomp.Gr.ltsP_equiv_ltsB", "ESV.Decomp.Gr.groupLoop_fuel_irrelevant",
+             "ESV.Decomp.groupBranches_in_edge_counterexample", "ESV.Decomp.groupBranches_start_vertex_counterexample",
+             "ESV.Decomp.groupBranches_inverted_counterexample", "ESV.Decomp.groupBranches_two_else_counterexample",
+             "ESV.Decomp.invertBranches_twice_counterexample", "ESV.Decomp.invertBranches_two_else_counterexample"]
 
 
 BB_EXAMPLES: list[dict] = []   # first real inputs on which build_branches alone changes behaviour (counted, see front_channels)
@@ -187,6 +196,219 @@ def branches_graph_tie(run: core.Run, pool: core.Pool, drv: core.Driver, n: int,
     return mism
 
 
+GB_EXAMPLES: list[dict] = []   # first real inputs on which group_branches / invert_branches alone change behaviour, or on
+                                # which the two readings of an if disagree after build_branches (counted, see front_channels)
+
+BRANCH_NAMES = ["Branch", "BranchBit", "BranchVariable", "BranchValue"]
+
+
+def _ifv(n: Any, off: int, ifs: int, mops: list | None = None, neg: bool = False, name: str = "Branch", call: bool = False) -> dict:
+    return dict(_lj(off, name, 0, call), n=n, ifs=ifs, ife=[], mops=mops or [], **{"not": neg})
+
+
+def _lab(n: Any, i: int, ife: list | None = None) -> dict:
+    return {"k": "label", "id": i, "n": n, "ifs": None, "ife": ife or []}
+
+
+def _mop(off: int, name: str) -> dict:
+    return {"off": off, "name": name, "params": []}
+
+
+def _fes(*edges: tuple) -> list:
+    return [[s, t, lv, False, bool(el)] for (s, t, lv, el) in edges]
+
+
+# the witnesses of lean/ESV/Decomp/GrCounter.lean, replayed on the real passes:
+# (name, pass, graph, hypotheses hold, behaviour changes)
+GROUP_WITNESSES: list[tuple] = [
+    # if (A || B) { Foo } else { Bar }: the plain grouping example - hypotheses hold, behaviour kept
+    ("exOr", "group", {"vs": [_ifv(0, 0, 0, name="Branch"), _ifv(1, 1, 1, name="BranchBit"), _bv(2, _opv(2, "Bar")), _lab(3, 1, [0, 1]), _bv(4, _opv(3, "Foo")), _bv(5, _opv(4, "Return"))],
+                        "es": _fes((0, 1, 0, 1), (0, 4, 1, 0), (1, 2, 0, 1), (1, 4, 1, 0), (2, 3, 0, 0), (4, 3, 0, 0), (3, 5, 0, 0))}, True, False),
+    # Foo leads INTO the second if: the merged-away vertex has an in-edge from a vertex that stays
+    ("cexGroupInEdge", "group", {"vs": [_ifv(0, 0, 0), _ifv(1, 1, 1, name="BranchBit"), _bv(2, _opv(2, "Bar")), _bv(3, _opv(3, "Return")), _bv(4, _opv(4, "Foo"))],
+                                 "es": _fes((0, 1, 0, 1), (0, 4, 1, 0), (1, 2, 0, 1), (1, 4, 1, 0), (2, 3, 0, 0), (4, 1, 0, 0))}, False, True),
+    # the routine STARTS with the if that is merged away (the first if is reached by a jump back)
+    ("cexGroupStart", "group", {"vs": [_ifv(0, 0, 0, name="BranchBit"), _bv(1, _opv(1, "Bar")), _ifv(2, 2, 1), _bv(3, _opv(3, "Foo"))],
+                                "es": _fes((0, 1, 0, 1), (0, 3, 1, 0), (2, 0, 0, 1), (2, 3, 1, 0), (1, 2, 0, 0))}, False, True),
+    # an if that is already inverted is grouped: the fresh MultiIfStart forgets is_not
+    ("cexGroupNot", "group", {"vs": [_ifv(0, 0, 0, neg=True), _ifv(1, 1, 1, name="BranchBit"), _bv(2, _opv(2, "Bar")), _bv(3, _opv(3, "Foo"))],
+                              "es": _fes((0, 1, 0, 1), (0, 3, 1, 0), (1, 2, 0, 1), (1, 3, 1, 0))}, False, True),
+    # two else-edges at the grouping if: after the reconnect ANOTHER edge is the first else-edge
+    ("cexGroupTwoElse", "group", {"vs": [_ifv(0, 0, 0), _ifv(1, 1, 1, name="BranchBit"), _bv(2, _opv(2, "Qux")), _bv(3, _opv(3, "Bar")), _bv(4, _opv(4, "Foo"))],
+                                  "es": _fes((0, 1, 0, 1), (0, 2, 0, 1), (0, 4, 1, 0), (1, 3, 0, 1), (1, 4, 1, 0))}, False, True),
+    # invert: if (A) { } else { Foo }  ->  if not (A) { Foo }
+    ("exInvert", "invert", {"vs": [_ifv(0, 0, 0), _bv(1, _opv(1, "Foo")), _lab(2, 1, [0]), _bv(3, _opv(2, "Return"))],
+                            "es": _fes((0, 1, 0, 1), (0, 2, 1, 0), (1, 2, 0, 0), (2, 3, 0, 0))}, True, False),
+    # inverting an if that is already inverted: is_not stays True, the flags are swapped again
+    ("cexInvertTwice", "invert", {"vs": [_ifv(0, 0, 0, neg=True), _bv(1, _opv(1, "Foo")), _lab(2, 1, [0]), _bv(3, _opv(2, "Bar"))],
+                                  "es": _fes((0, 1, 0, 1), (0, 2, 1, 0), (1, 2, 0, 0), (2, 3, 0, 0))}, False, True),
+    # two else-edges: after the swap the first else-edge is not the old if-edge
+    ("cexInvertTwoElse", "invert", {"vs": [_ifv(0, 0, 0), _bv(1, _opv(1, "Foo")), _bv(2, _opv(2, "Qux")), _lab(3, 1, [0]), _bv(4, _opv(3, "Bar"))],
+                                    "es": _fes((0, 1, 0, 1), (0, 2, 0, 1), (0, 3, 1, 0), (1, 3, 0, 0), (2, 3, 0, 0), (3, 4, 0, 0))}, False, True),
+]
+
+
+def random_ggraph(rnd: Any) -> dict:
+    """a small random graph as group_branches / invert_branches may meet it, and many they never meet: marked label jumps
+    (plain, multi, inverted, with a CallJump marker in front), chains of ifs with a common if-target, else-cycles (the real
+    loop does not terminate), ifs without an else- or if-edge, several flagged edges, shuffled edge ids"""
+    n = rnd.randint(2, 9)
+    vs = []
+    names = sorted(rnd.sample(range(0, 3 * n), n))
+    next_if = 0
+    for i in range(n):
+        r = rnd.random()
+        if r < 0.45:
+            ifid = next_if if rnd.random() < 0.9 else rnd.randint(0, 3)
+            next_if += 1
+            mops = [_mop(100 + i * 3 + k, rnd.choice(BRANCH_NAMES)) for k in range(rnd.choice([0] * 16 + [1, 2]))]
+            v = _ifv(names[i], i, ifid, mops, rnd.random() < 0.07, rnd.choice(BRANCH_NAMES), call=rnd.random() < 0.02)
+        elif r < 0.70:
+            v = _lab(names[i], i, [rnd.randint(0, 4) for _ in range(rnd.choice([0, 0, 1, 1, 2]))])
+        elif r < 0.85:
+            v = _bv(names[i], _opv(i, rnd.choice(["Foo", "Bar", "Wait", "Return", "lives", "End"])))
+        elif r < 0.90:
+            v = _bv(names[i], _lj(i, "Jump", rnd.randint(0, 5)))
+        elif r < 0.96:
+            v = _bv(names[i], _lj(i, rnd.choice(BRANCH_NAMES + ["CaseValue"]), rnd.randint(0, 5)))
+        else:
+            v = _bv(None, {"k": "foreign", "id": i})
+        vs.append(v)
+    ifs = [i for i, v in enumerate(vs) if v.get("ifs") is not None]
+    labels = [i for i, v in enumerate(vs) if v["k"] == "label"]
+    common = rnd.randrange(n)
+    es = []
+    for i in ifs:
+        r = rnd.random()
+        if r < 0.04:
+            continue
+        x = common if rnd.random() < 0.7 else (rnd.choice(labels) if labels and rnd.random() < 0.5 else rnd.randrange(n))
+        if labels and rnd.random() < 0.3:
+            # the if-edge leads to a label that carries this if's IfEnd: invert_branches fires
+            x = rnd.choice(labels)
+            if rnd.random() < 0.8:
+                vs[x]["ife"].append(vs[i]["ifs"])
+        later = [j for j in ifs if j > i and not vs[j]["mops"]]
+        plain = [j for j in range(n) if j not in ifs]
+        y = rnd.choice(later) if later and rnd.random() < 0.65 else (rnd.choice(plain) if plain and rnd.random() < 0.75 else rnd.randrange(n))
+        lo, hi = (0, 1) if rnd.random() < 0.9 else (rnd.randint(0, 2), rnd.randint(0, 2))
+        if r > 0.08:
+            es.append([i, y, lo, rnd.random() < 0.05, True])
+        if r < 0.04 or r > 0.12:
+            es.append([i, x, hi, rnd.random() < 0.05, False])
+        if rnd.random() < 0.06:
+            es.append([i, rnd.randrange(n), rnd.randint(0, 2), False, rnd.random() < 0.5])
+    for i, v in enumerate(vs):
+        if v.get("ifs") is None and v["k"] != "foreign" and rnd.random() < 0.85:
+            es.append([i, rnd.randrange(n), 0, rnd.random() < 0.05, rnd.random() < 0.03])
+            if v["k"] == "ljump" and rnd.random() < 0.5:
+                es.append([i, rnd.randrange(n), 1, False, False])
+        if rnd.random() < 0.04:
+            es.append([rnd.randrange(n), i, rnd.randint(0, 1), False, False])
+    rnd.shuffle(es)
+    return {"vs": vs, "es": es}
+
+
+def chain_ggraph(rnd: Any) -> dict:
+    """a chain of ifs with a common if-target (what group_branches looks for), if ids drawn from a small range (duplicates) and
+    several labels carrying the same IfEnd ids more than once: which marker goes, and how often, becomes visible"""
+    k = rnd.randint(2, 5)
+    nl = rnd.randint(1, 3)
+    n = k + nl + 2
+    order = list(range(n))
+    if rnd.random() < 0.5:
+        rnd.shuffle(order)
+    pos = {role: order[role] for role in range(n)}          # role -> vertex index; roles: 0..k-1 ifs, k..k+nl-1 labels, then X, Y
+    vs: list = [None] * n
+    ids = [rnd.randint(0, 2) for _ in range(k)]
+    for r in range(k):
+        vs[pos[r]] = _ifv(3 * pos[r], pos[r], ids[r], name=rnd.choice(BRANCH_NAMES))
+    for r in range(k, k + nl):
+        vs[pos[r]] = _lab(3 * pos[r], pos[r], [rnd.randint(0, 2) for _ in range(rnd.randint(0, 4))])
+    vs[pos[k + nl]] = _bv(3 * pos[k + nl], _opv(pos[k + nl], "Foo"))
+    vs[pos[k + nl + 1]] = _bv(3 * pos[k + nl + 1], _opv(pos[k + nl + 1], "Bar"))
+    x, y = pos[k + nl], pos[k + nl + 1]
+    es = []
+    for r in range(k):
+        nxt = pos[r + 1] if r + 1 < k else y
+        if rnd.random() < 0.1:
+            nxt = rnd.choice([pos[q] for q in range(k)])       # a jump back into the chain: cycles, already merged vertices
+        es.append([pos[r], nxt, 0, False, True])
+        es.append([pos[r], x if rnd.random() < 0.9 else pos[k], 1, False, False])
+    for r in range(k, k + nl):
+        es.append([pos[r], rnd.choice([x, y, pos[rnd.randrange(k)]]), 0, False, False])
+    es.append([x, pos[k], 0, False, False])
+    rnd.shuffle(es)
+    return {"vs": vs, "es": es}
+
+
+def group_graph_tie(run: core.Run, pool: core.Pool, drv: core.Driver, n: int, jobs: int, cnt: Counter) -> int:
+    """graph-level tie of group_branches and invert_branches: model and real pass on hand-built graphs (the witnesses of
+    the Lean counterexamples + n random graphs, each through both passes; a third of them through invert AFTER the real
+    group).  On every graph the theorems' conclusion is re-checked by the proven checker: hypotheses hold => behaviour kept."""
+    cases = [(name, ps, g, hyp, chg) for (name, ps, g, hyp, chg) in GROUP_WITNESSES]
+    for k in range(n):
+        g = chain_ggraph(run.rng) if k % 4 == 3 else random_ggraph(run.rng)
+        cases.append((f"random{k}", "group", g, None, None))
+        cases.append((f"random{k}", "invert", g, None, None))
+    reqs = [{"g": g, "pass": ps} for (_n, ps, g, _h, _c) in cases]
+    chunk = 40
+    chunks = [reqs[i:i + chunk] for i in range(0, len(reqs), chunk)]
+    outs = pool.map("harness.impl_decomp:group_on_graphs", chunks, timeout=90)
+    real: list[Any] = []
+    for ch, o in zip(chunks, outs):
+        real += o if isinstance(o, list) else [None] * len(ch)
+    # second round: invert_branches on what the REAL group_branches produced (multi-ifs being inverted)
+    extra = [(name + "+invert", "invert", a, None, None) for (name, ps, _g, _h, _c), a in zip(cases, real)
+             if ps == "group" and isinstance(a, dict) and "error" not in a and any(v.get("multi") for v in a["vs"])]
+    if extra:
+        ereqs = [{"g": g, "pass": ps} for (_n, ps, g, _h, _c) in extra]
+        echunks = [ereqs[i:i + chunk] for i in range(0, len(ereqs), chunk)]
+        for ch, o in zip(echunks, pool.map("harness.impl_decomp:group_on_graphs", echunks, timeout=90)):
+            real += o if isinstance(o, list) else [None] * len(ch)
+        cases += extra
+        reqs += ereqs
+    model = drv.batch_parallel([dict(r, op="decomp.group") for r in reqs], jobs)
+    mism = 0
+    for (name, ps, g, exp_hyp, exp_chg), a, b in zip(cases, real, model):
+        if a is None:
+            cnt["group_tie:impl_no_answer"] += 1
+            continue
+        b = dict(b)
+        facts = {k: b.pop(k, None) for k in ("hyp", "verdict", "bridge_ok", "bridge")}
+        shape = "raises:" + a["error"] if "error" in a else ("ok:changes" if (a["vs"], a["es"]) != (_norm_vs(g["vs"]), g["es"]) else "ok")
+        cnt[f"group_tie:{ps}:{shape}"] += 1
+        if a != b:
+            mism += 1
+            if mism <= 2:
+                run.broken_tie(f"correspondence {ps}_branches on a hand-built graph: model and implementation disagree",
+                               {"channel": "decomp.group", "case": name, "pass": ps, "g": g, "impl": a, "model": b})
+            continue
+        if "error" in a:
+            continue
+        changed = facts["verdict"] in ("differ", "check-rejected", "silent-right", "budget")
+        cnt[f"group_tie:{ps}:hypotheses_" + ("hold" if facts["hyp"] else "fail") + (":behaviour_changed" if changed else "")] += 1
+        if facts["hyp"] and facts["verdict"] != "equiv" and facts["verdict"] != "silent-left":
+            run.broken_tie(f"{ps}Branches_preserves contradicted by the proven checker on a hand-built graph", {"channel": "decomp.group", "case": name, "pass": ps, "g": g, "facts": facts})
+        if facts["bridge_ok"] and facts["bridge"] not in ("equiv", "silent-left"):
+            run.broken_tie("stepB_agrees contradicted by the proven checker on a hand-built graph", {"channel": "decomp.group", "case": name, "g": g, "facts": facts})
+        if exp_hyp is not None and (facts["hyp"] != exp_hyp or (exp_chg is not None and changed != exp_chg)):
+            run.broken_tie(f"witness {name} of a Lean theorem does not replay on the real {ps}_branches", {"channel": "decomp.group", "case": name, "impl": a, "facts": facts})
+    return mism
+
+
+def _norm_vs(vs: list) -> list:
+    """a hand-built vertex list in the form _bgraph dumps it (all keys present)"""
+    out = []
+    for v in vs:
+        d = dict(v)
+        d.setdefault("mops", [])
+        d.setdefault("not", False)
+        d["multi"] = bool(d["mops"])
+        out.append(d)
+    return out
+
+
 def strip_ops(rs: dict) -> list:
     return [[{"off": o["off"], "name": o["name"], "params": o["params"]} for o in r] for r in rs["ops"]]
 
@@ -313,7 +535,57 @@ def front_channels(run: core.Run, pool: core.Pool, drv: core.Driver, sets: list[
                 cnt["front:build_branches_changes_behaviour"] += 1
                 if len(BB_EXAMPLES) < 5:
                     BB_EXAMPLES.append({"rs": sets[i]["rs"], "verdict": v, "optimized": real[i]["opt"][v["r"]], "branches": real[i]["bb"][v["r"]], "answers": answers_of.get(i, [])[v["r"]]})
+    # third and fourth rewriting phase (group_branches, invert_branches): outcomes, then the REAL graph after each pass against
+    # the REAL graph before it under the flag-based reading stepB, and the bridge stepE / stepB on the real graph after build_branches
+    greqs, gidx = [], []
+    for i, a in enumerate(real):
+        if not a or not isinstance(a.get("bb"), list):
+            continue
+        for k in ("gb", "ib"):
+            if k in a:
+                cnt[("group_branches:" if k == "gb" else "invert_branches:") + ("raises:" + a[k].get("error", "?") if isinstance(a[k], dict) else "ok")] += 1
+        if isinstance(a.get("gb"), list):
+            if any(v.get("multi") for g in a["gb"] for v in g["vs"]):
+                cnt["group_branches:builds_multi_if"] += 1
+            if any(len(v.get("mops") or []) > 1 for g in a["gb"] for v in g["vs"]):
+                cnt["group_branches:builds_multi_if_of_3_or_more"] += 1
+        if isinstance(a.get("ib"), list) and any(v.get("not") for g in a["ib"] for v in g["vs"]):
+            cnt["invert_branches:inverts"] += 1
+            if any(v.get("not") and v.get("multi") for g in a["ib"] for v in g["vs"]):
+                cnt["invert_branches:inverts_multi_if"] += 1
+        greqs.append(dict({"op": "decomp.validate_group", "bb": a["bb"]}, **{k: a[k] for k in ("gb", "ib") if isinstance(a.get(k), list)}))
+        gidx.append(i)
+    for i, rep in zip(gidx, drv.batch_parallel(greqs, jobs)):
+        if "error" in rep:
+            cnt["validate_group_error"] += 1
+            run.broken_tie("decomp.validate_group failed: " + str(rep["error"])[:200], {"channel": "decomp.validate_group", "rs": sets[i]["rs"]})
+            continue
+        for v in rep["routines"]:
+            r = v["r"]
+            for phase, thm, hyps in (("bridge", "stepB_agrees_after_buildBranches", ("bridge_ok",)), ("group", "groupBranches_preserves", ("struct_ok", "del_ok")),
+                                     ("invert", "invertBranches_preserves", ("struct_ok",))):
+                w = v.get(phase)
+                if w is None:
+                    continue
+                tag = ":changed" if w.get("changed") else ""
+                cnt[f"{phase}:{w['verdict']}{tag}"] += 1
+                hyp = all(w[h] for h in hyps)
+                cnt[f"{phase}:hypotheses_" + ("hold" if hyp else "fail:" + "+".join(h for h in hyps if not w[h])) + tag] += 1
+                # "silent-left": a reachable cycle of labels and Jumps only in the graph before (outside the quantifier of C02/C06)
+                bad = w["verdict"] in ("differ", "check-rejected", "silent-right", "budget", "start-deleted")
+                if bad and hyp:
+                    run.broken_tie(f"a real graph that meets the hypotheses of {thm} contradicts it ({phase}: {w['verdict']})",
+                                   {"channel": "decomp.validate_group", "rs": sets[i]["rs"], "routine": r, "verdict": w})
+                elif bad:
+                    # COUNTED only (like front:build_branches_changes_behaviour): later passes / the writer may compensate; the final
+                    # text is judged by C02's validation as before.  First examples kept in GB_EXAMPLES.
+                    cnt[f"front:{phase}_changes_behaviour"] += 1
+                    if len(GB_EXAMPLES) < 6:
+                        GB_EXAMPLES.append({"phase": phase, "rs": sets[i]["rs"], "routine": r, "verdict": w,
+                                            "before": real[i]["bb" if phase != "invert" else "gb"][r],
+                                            "after": real[i][{"bridge": "bb", "group": "gb", "invert": "ib"}[phase]][r]})
     mism += branches_graph_tie(run, pool, drv, 400, jobs, cnt)
+    mism += group_graph_tie(run, pool, drv, 300, jobs, cnt)
     # environment model: igraph incident-edge order
     st = pool.map("harness.impl_decomp:igraph_order_selftest", [{"seed": run.seed, "n": 150}], timeout=60)[0]
     if not isinstance(st, dict) or st.get("bad"):
